@@ -1,5 +1,6 @@
 import TexcraftModel.Lemmas.C16
 import TexcraftModel.Lemmas.C16Seq
+import TexcraftModel.Lemmas.C16Range
 
 /-!
 # C16 — property theorems
@@ -371,6 +372,31 @@ theorem normalize_bytes (b : List Nat) (hb : bytesOK b) (ops : List Op) (e : Opt
 theorem normalize_idempotent (ops : List Op) : varRemove (varRemove ops) = varRemove ops :=
   varRemoveFrom_noVars _ _ (var_remove_no_vars ops)
 
+/-! ## When the unbounded positions of the model are exact -/
+
+/-- `dvi::Values` adds on `i32`. If the movements of a stream sum, in absolute value, to less than
+2^31 (`runMag`, evaluated by the driver per case), then after every prefix of the stream every
+`h` and `v` held by the tracker — current level and every stacked level — is an `i32`: no `+=`
+of the Rust code overflows, so the model's `Int` positions *are* the code's. (Beyond that bound
+a checked build panics and an unchecked one wraps; such streams are outside the quantifier.) -/
+theorem positions_within_i32 (ops : List Op) (h : runMag {} ops < 2147483648) :
+    ∀ k, k ≤ ops.length →
+      let s := (ops.take k).foldl Values.update {}
+      (fitsI32 s.top.h ∧ fitsI32 s.top.v) ∧ ∀ t ∈ s.tail, fitsI32 t.h ∧ fitsI32 t.v := by
+  intro k hk
+  have h0 : ({} : Values).Within 0 := by
+    refine ⟨⟨by decide, by decide⟩, ?_⟩
+    intro t ht; cases ht
+  have := run_within ops {} 0 h0 k hk
+  simp only [Nat.zero_add] at this
+  obtain ⟨⟨a, b⟩, c⟩ := this
+  refine ⟨⟨?_, ?_⟩, ?_⟩
+  · unfold fitsI32; omega
+  · unfold fitsI32; omega
+  · intro t ht
+    obtain ⟨c1, c2⟩ := c t ht
+    unfold fitsI32; omega
+
 /-! ## Non-vacuity: the hypotheses are met by concrete, non-trivial instances -/
 
 example : SeqWF [.preamble 2 25400000 473628672 1000 [84, 101, 88], .beginPage [1,0,0,0,0,0,0,0,0,0] (-1),
@@ -401,6 +427,14 @@ the input bytes. -/
 example : bytesOK exampleBytes ∧ (deserialize exampleBytes).2 = none ∧
     Post52Free (deserialize exampleBytes).1 ∧
     serAll (varRemove (deserialize exampleBytes).1) ≠ exampleBytes := by
+  decide +kernel
+
+/-- `positions_within_i32` is not vacuous at the extremes, and its bound is sharp: one more unit
+and a position leaves `i32`. -/
+example : runMag {} [.right 2147483647, .push, .setVar .W (-2147483647), .move .W, .pop, .down (-5)] = 6442450946 := by
+  decide +kernel
+example : runMag {} [.right 1073741823, .down (-1073741824)] < 2147483648 := by decide +kernel
+example : ¬ fitsI32 (([.right 2147483647, .right 1] : List Op).foldl Values.update {}).top.h := by
   decide +kernel
 
 end C16
